@@ -158,6 +158,10 @@ func (f *freshnessCalculator) CalculateFreshness(
 	if maxAge, ok := resCC.MaxAge(); ok && maxAge >= 0 {
 		usefulLife = maxAge // Response is fresh for max-age seconds
 		hasMaxAge = true
+	} else if resCC.MaxAgePresent() {
+		// A max-age that cannot be read is invalid freshness information: the
+		// response is stale, and Expires stays ignored (RFC9111 §4.2.1, §5.3).
+		hasMaxAge = true
 	}
 
 	// A valid max-age (including max-age=0) takes precedence over Expires and
